@@ -83,6 +83,46 @@ def stream_errors(ctx, w, rule):
     ctx.floor(f"visitors examined ({rule})", n, 20)
 
 
+def redacts_fallback_rule(ctx, w, rule):
+    """The reviewed `expect("At least one redacts field is set")` of ruma_events::room::redaction::redacts holds because (a) the hand-written
+    deserializers of the redaction event refuse an event in which BOTH `redacts` fields are missing and (b) the helper falls back from the field
+    its room version prefers to the OTHER one. Both halves are decided: every panicking path of the helper has both fields None, and both
+    deserializers raise missing_field("redacts") exactly under both-None (a stricter sibling rejects valid events, see C18)."""
+    ctx.rule(rule, "redaction::redacts panics only when redacts AND content_redacts are None (the fallback is the other field, for every room version); the "
+                   "deserializers of OriginalRoomRedactionEvent and OriginalSyncRoomRedactionEvent refuse exactly the events with both fields missing")
+    if "ruma_events" not in w.crates:
+        return
+    f = w.fn("ruma_events::room::redaction::redacts")
+    dex = D.Dex(w.lookup, adt_discr=w.adt_discr, inline=lambda n: "{closure" in n, ctors=w.ctors)
+    paths = dex.paths(f, [D.sym("rv"), D.sym("redacts"), D.sym("content_redacts")])
+    pan = [p for p in paths if p.kind == "panic"]
+    bad = []
+    for p in pan:
+        tv = U.true_variants(p)
+        if not (tv.get("redacts") == "None" and tv.get("content_redacts") == "None"):
+            bad.append(sorted((k, v) for k, v in tv.items() if "redacts" in k))
+    rets_bad = [D.show(p.ret) for p in paths if p.kind == "ret" and D.show(p.ret) not in ("redacts.Some.0", "content_redacts.Some.0")]
+    ctx.floor("panicking paths of redaction::redacts", len(pan), 2)
+    ctx.check(not bad and not rets_bad, rule, f"{rule}:helper", w.where(f),
+              bad_msg=f"redaction::redacts can panic although one of the two fields is set (conditions {bad[:1]}; other returns {rets_bad[:1]}): the fallback does not "
+                      f"go to the other field, so an event the deserializer accepted panics in .redacts(room_version)")
+    n = 0
+    for g in w.all_fns():
+        m = re.search(r"event_serde::<impl serde_core::de::Deserialize<'de> for ruma_events::room::redaction::(Original(?:Sync)?RoomRedactionEvent)>::deserialize$", g["path"])
+        if not m or "body" not in g:
+            continue
+        n += 1
+        mp = [p for p in dex.paths(g, [D.sym("de")]) if p.kind == "ret" and "missing_field('redacts')" in D.show(p.ret)]
+        okd = bool(mp)
+        for p in mp:
+            nones = [k for k, v in U.true_variants(p).items() if v == "None" and k.endswith("redacts")]
+            okd = okd and any(k.endswith(".content.redacts") for k in nones) and any(k.endswith(".redacts") and not k.endswith(".content.redacts") for k in nones)
+        ctx.check(okd, rule, f"{rule}:deserialize:{m.group(1)}", w.where(g),
+                  bad_msg=f"{m.group(1)}: missing_field(\"redacts\") is not raised exactly when both the event-level and the content `redacts` are absent "
+                          f"(its sibling accepts the same event; v11 events carry only content.redacts, v1-v10 events only the event-level one)")
+    ctx.floor("hand-written redaction event deserializers", n, 2)
+
+
 def tree_link_rule(ctx, w):
     """The reviewed `expect`s of ruma_html::html (parent_and_index: "child should be in parent's children") rest on one invariant of the tree:
     a node's `parent` link is set exactly while it is in that parent's `children` list. The invariant is kept by pairing, which is decided
@@ -134,6 +174,7 @@ def run(ctx):
     from . import C10
     C10.invariant_rules(ctx, w)
     tree_link_rule(ctx, w)
+    redacts_fallback_rule(ctx, w, "C17.redacts-fallback")
 
     if ctx.tier == "thorough":
         # build configuration B: the API crates with client+server features (generated request/response conversions, the multipart
